@@ -371,6 +371,27 @@ def runSched (j : Json) : Json :=
         !(sel.all (fun m => e.onShift m i && !e.leaveMark m i)) ||
           sel.all (fun m => (usageOf (σ.led.get m i).usage t).isSome) ||
           sel.any (fun m => pre.any (fun t' => (usageOf (σ.led.get m i).usage t').isSome)))))
+  -- C08.no_idle_final_alap_team: unlimited backward teams
+  let teamUBs := anyTeams.filter (fun t =>
+    let d := e.taskD t
+    d.alloc.all (fun m => (e.resD m).leaf && (resLimitIds e m).isEmpty) && (taskLimitIds e t).isEmpty &&
+      (σ.tst t).scheduled && !(σ.tst t).forward)
+  let teamAlapEndFail := teamUBs.filter (fun t =>
+    match (σ.tst t).stop with
+    | some v => !decide (v ≤ deadlineG e (loopStart e) σ t)
+    | none => true)
+  let teamAlapIdleFail := teamUBs.filter (fun t =>
+    let sel := (e.taskD t).alloc
+    let booked := (σ.led.m.toList.filter (fun (ks : Key × Slot) => sel.contains ks.1.1 && (usageOf ks.2.usage t).isSome)).map (fun ks => ks.1.2)
+    let hi := e.idx (deadlineG e (loopStart e) σ t) - 1
+    match booked.foldl (fun (m : Option Int) i => match m with | none => some i | some x => some (min x i)) none with
+    | none => false
+    | some L =>
+      !((List.range (hi - L + 1).toNat).all (fun k =>
+        let i := L + (k : Int)
+        !(sel.all (fun m => e.onShift m i && !e.leaveMark m i)) ||
+          sel.all (fun m => (usageOf (σ.led.get m i).usage t).isSome) ||
+          sel.any (fun m => !(σ.led.get m i).usage.isEmpty))))
   -- containers: scheduled => children scheduled and dates = min / max; all children scheduled => scheduled
   let conts := (List.range e.tasks.size).filter (fun c => !(e.taskD c).leaf && !(e.taskD c).children.isEmpty)
   let contFail := conts.filter (fun c =>
@@ -391,6 +412,8 @@ def runSched (j : Json) : Json :=
                          ("alap_end_fail", Json.num (JsonNumber.fromNat alapEndFail.length)),
                          ("fit_fail", Json.num (JsonNumber.fromNat fitFail.length)),
                          ("team_fit_tasks", Json.num (JsonNumber.fromNat teamUs.length)), ("team_fit_fail", Json.num (JsonNumber.fromNat teamFitFail.length)),
+                         ("team_alap_tasks", Json.num (JsonNumber.fromNat teamUBs.length)), ("team_alap_idle_fail", Json.num (JsonNumber.fromNat teamAlapIdleFail.length)),
+                         ("team_alap_end_fail", Json.num (JsonNumber.fromNat teamAlapEndFail.length)),
                          ("placed", Json.num (JsonNumber.fromNat order.length)), ("order_fail", Json.num (JsonNumber.fromNat ordFail.length)),
                          ("limit_periods", Json.num (JsonNumber.fromNat limChecks.length)), ("limit_fail", Json.num (JsonNumber.fromNat limFail.length)),
                          ("containers", Json.num (JsonNumber.fromNat conts.length)), ("container_fail", Json.num (JsonNumber.fromNat contFail.length)),
